@@ -829,7 +829,11 @@ def sliceStep (S : StoreSem) (s : SliceSt) : SOp → SliceSt × Obs
   | .jsSetLenNeg => (s, .rangeErr)                              -- goSliceObject.setLength: negative length
   | .jsSetLen n =>                                              -- goSliceObject.setLength
     if n = s.js.len then (s, .unit)
-    else if n ≤ s.js.cap then ({ s with js := { s.js with len := n } }, .unit)   -- fits the capacity: reslice of the object's own header
+    else if n ≤ s.js.cap then
+      -- fits the capacity: reslice of the object's own header; elements that become visible again are zeroed
+      let arr := s.arr s.js.addr
+      let arr' := (arr.take s.js.len) ++ List.replicate (n - s.js.len) s.et.zero ++ arr.drop (max n s.js.len)
+      ({ s with heap := listSet s.heap s.js.addr (if n > s.js.len then arr' else arr), js := { s.js with len := n } }, .unit)
     else
       let fresh := s.view s.js ++ List.replicate (n - s.js.len) s.et.zero
       ({ s with heap := s.heap ++ [fresh], js := { addr := s.heap.length, len := n, cap := n } }, .unit)
@@ -1170,24 +1174,24 @@ def callbackOutcome : CbKind → CbObs
 
 def zooModel : List (String × String) :=
   [("byval_struct_read", "1"),
-   ("byval_struct_write", "!gopanic"),
-   ("nilptr_embedded_read", "!gopanic"),
-   ("nilptr_embedded_write", "!gopanic"),
-   ("defined_int", "!gopanic"),
+   ("byval_struct_write", "!throw:TypeError"),
+   ("nilptr_embedded_read", "undefined,false|go:true"),
+   ("nilptr_embedded_write", "z|go:true"),
+   ("defined_int", "main.zMyInt:5"),
    ("defined_int_from_float", "main.zMyInt:5"),
    ("defined_u8_overflow", "!throw:RangeError"),
-   ("defined_string", "!gopanic"),
-   ("defined_bool", "!gopanic"),
-   ("defined_float", "!gopanic"),
-   ("defined_slice_elem", "!gopanic"),
-   ("defined_key_read", "!gopanic"),
-   ("defined_key_write", "!gopanic"),
-   ("defined_key_param", "!gopanic"),
-   ("ptr_to_value_param", "{C:0 S:[]}"),
-   ("slice_field_push", "3:1,2,3|go:[1 2 3]"),
-   ("slice_field_setlen", "3:1,2,3|go:[1 2 3]"),
+   ("defined_string", "main.zMyStr:amain.zMyStr:7"),
+   ("defined_bool", "main.zMyBool:truemain.zMyBool:false"),
+   ("defined_float", "main.zMyF:1.5main.zMyF:2"),
+   ("defined_slice_elem", "[]main.zMyInt:[1 2]"),
+   ("defined_key_read", "apundefinedtrue1,16"),
+   ("defined_key_write", "bundefined|go:map[2:b]"),
+   ("defined_key_param", "map[main.zSK]int:map[a:1]"),
+   ("ptr_to_value_param", "{C:1 S:[1 2 3]}"),
+   ("slice_field_push", "4:1,2,3,4|go:[1 2 3 4]"),
+   ("slice_field_setlen", "5:1,2,3,0,0|go:[1 2 3 0 0]"),
    ("slice_field_shrink", "1:1|go:[1]"),
-   ("slice_field_regrow", "1,2,3|go:[1 2 3]"),
+   ("slice_field_regrow", "1,0,0|go:[1 0 0]"),
    ("slice_field_write", "1,9,3|go:[1 9 3]"),
    ("shadowed_field", "inner,z|go:outer,z"),
    ("promoted_ptr_read", "ia,0,0|go:0,0,ia"),
@@ -1197,16 +1201,16 @@ def zooModel : List (String × String) :=
    ("keys_after_dropped_writes", "A,Skip,Skip,U,ZIn|go:0,0,ia"),
    ("struct_keys", "Skip,ZIn|go:0,0,ia"),
    ("int_key_plain", "1,1,5,undefined,true,0,16|go:map[0:5 16:1]"),
-   ("int_key_alias_hex", "1,true|go:map[0:5 16:1]"),
-   ("int_key_alias_underscore", "1|go:map[0:5 16:1]"),
-   ("int_key_alias_plus", "1,undefined|go:map[0:5 16:1]"),
-   ("int_key_alias_negzero", "5|go:map[0:5 16:1]"),
+   ("int_key_alias_hex", "undefined,false|go:map[0:5 16:1]"),
+   ("int_key_alias_underscore", "undefined|go:map[0:5 16:1]"),
+   ("int_key_alias_plus", "undefined,undefined|go:map[0:5 16:1]"),
+   ("int_key_alias_negzero", "undefined|go:map[0:5 16:1]"),
    ("int_key_write", "2,3|go:map[0:5 7:2 16:3]"),
    ("int_key_assign_unconvertible", "!throw:TypeError"),
-   ("int_key_delete_unconvertible", "!throw:TypeError"),
+   ("int_key_delete_unconvertible", "true|go:map[0:5 16:1]"),
    ("int_key_delete", "true,undefined,true|go:map[0:5]"),
    ("bool_key", "1,1,undefined,true"),
-   ("bool_key_alias", "1,1,1"),
+   ("bool_key_alias", "undefined,undefined,undefined"),
    ("slice_unshift", "!throw:TypeError"),
    ("slice_splice_insert", "!throw:TypeError"),
    ("slice_mutators", "ok,ok,ok,ok,ok,ok,ok,ok|go:[1 2 3]")]
